@@ -206,7 +206,7 @@ pub proof fn lemma_membership(s: Raw, a: Seq<char>, new: Option<u64>, h: u64, to
     broadcast use cw4_axioms, string_conv, msg_conv;
     let ghost s0 = old(storage).view();
     proof { lemma_ns5(); }
-@insert_before "let diff = MemberDiff::new(sender, old, new);" 1
+@insert_before "~MemberDiff::new(" 1
     proof {
         lemma_membership(s0, sender@, new, height, (total_of(s0)->Some_0 + optval(new) - optval(old)) as u64);
     }
@@ -321,7 +321,7 @@ pub proof fn lemma_claims_set(s: Raw, a: Seq<char>, c: Seq<Claim>)
     let ghost s0 = old(deps.storage).view();
     let ghost bal0 = amount;
     proof { lemma_ns5(); }
-@insert_before "let messages = update_membership(" 1
+@insert_before "~update_membership(" 1
     proof {
         lemma_stake_set(s0, sender@, new_stake@);
         assert(accepted(cfg, bal0, amount));
@@ -361,7 +361,7 @@ pub proof fn lemma_claims_set(s: Raw, a: Seq<char>, c: Seq<Claim>)
     broadcast use cw4_axioms;
     let ghost s0 = old(deps.storage).view();
     proof { lemma_ns5(); }
-@insert_before "let messages = update_membership(" 1
+@insert_before "~update_membership(" 1
     proof {
         lemma_stake_set(s0, info.sender@, new_stake@);
         let s1 = stake_set(s0, info.sender@, new_stake@);
